@@ -1,0 +1,46 @@
+//go:build verif
+
+package verifhook
+
+import "sync/atomic"
+
+// Enabled tells whether instrumentation points are compiled in.
+const Enabled = true
+
+var (
+	pointFn atomic.Pointer[func(string)]
+	faultFn atomic.Pointer[func(string) error]
+)
+
+// SetPoint installs (or with nil removes) the callback invoked by Point.
+func SetPoint(f func(string)) {
+	if f == nil {
+		pointFn.Store(nil)
+		return
+	}
+	pointFn.Store(&f)
+}
+
+// SetFault installs (or with nil removes) the callback consulted by Fault.
+func SetFault(f func(string) error) {
+	if f == nil {
+		faultFn.Store(nil)
+		return
+	}
+	faultFn.Store(&f)
+}
+
+// Point marks a named step boundary.
+func Point(name string) {
+	if f := pointFn.Load(); f != nil {
+		(*f)(name)
+	}
+}
+
+// Fault returns an error to be injected at a named call site, nil if none.
+func Fault(name string) error {
+	if f := faultFn.Load(); f != nil {
+		return (*f)(name)
+	}
+	return nil
+}
